@@ -47,6 +47,8 @@ class V:
 
     # -- helpers
     def _ex(self):
+        if self.st is not None and getattr(self.st, "ex", None) is not None:
+            return self.st.ex
         return _cur()[0]
 
     def _st(self):
@@ -280,7 +282,7 @@ def Floor(x):
 def Uf(name, *args, sort="real"):
     """application of a named uninterpreted (ghost / library) function"""
     ex, _ = _cur()
-    if all(not is_sym(unV(a)) for a in args) and name in UF_IMPL:
+    if all(not is_sym(unV(a)) for a in args) and name in UF_IMPL and (args or ex.ctx.concrete):
         return V(UF_IMPL[name](*[unV(a) for a in args]))
     targs = []
     sorts = []
